@@ -36,7 +36,7 @@ KNOWN = [
      "budget. Third-party native code."),
     ("C20", "codec-library/inflate64-decoder-memory",
      "inflate64's Inflater alone (no py7zr code) retains about 0.7 MiB per MiB of output (600 MiB out -> 407 MiB RSS rise): extracting or testing Deflate64 members above roughly 1 GiB "
-     "exceeds the budget although py7zr takes the output in bounded pieces. Third-party native code."),
+     "exceeds the budget although py7zr takes the output in bounded pieces. Mechanism: Inflater.inflate() leaks one reference to its argument (sys.getrefcount 3 -> 4, still 4 after the Inflater is gone), so every input slice stays allocated. Third-party native code."),
     ("C05", "codec-library/pyppmd-alloc-failure-abort",
      "a PPMd coder whose 5-byte property declares a 4 GiB model (mem=0xFFFFFFFF): when that allocation fails (address-space limit, little free memory) pyppmd aborts the process "
      "('double free or corruption') instead of raising MemoryError. Inputs: reference-written archive with coder 030401 and props ffffffffff / 06ffffffff; structure-aware mutation of the top byte of the PPMd property (thorough tier). The classifier takes the (order, mem) the case's inputs declare and builds a Ppmd7Decoder with them in a child process whose address-space limit is below the declared model; only when the child is aborted is the crash filed under this key. Third-party native code."),
